@@ -566,8 +566,10 @@ func classify(block string) string {
 		return "RDONE"
 	case has(pk+"(*relay).relayFrames(") && strings.HasPrefix(state, "select"):
 		return "RSEL"
-	case has(pk+"(*relay).relayFrames(") && (strings.Contains(state, "Mutex") || strings.HasPrefix(state, "semacquire")):
-		return "RLOCK"
+	case has(pk+"(*relay).relayFrames(") && (strings.Contains(state, "Mutex") || strings.HasPrefix(state, "semacquire")) &&
+		(has(pk+"(*relay).updateWindow(") || has(pk+"(*relay).data(") || has(pk+"(*relay).enqueueFrame(") ||
+			has(pk+"(*relay).updateInitialWindowSize(") || has(pk+"(*relay).sendQueuedFramesUnderWindowSize(")):
+		return "RLOCK" // waiting for flowMu; a reader waiting for destMu or inside a direct Write is ROTHER
 	case has(pk + "(*relay).relayFrames("):
 		return "ROTHER"
 	case has(pk + "(*relay).relayFrames.func"):
